@@ -400,7 +400,7 @@ func init() {
 		start := time.Now()
 		f := build()
 		w := f.w
-		var evals, rejectedOK, txFailed, acceptedValid, crossEvals, crossUnpaired int64
+		var evals, rejectedOK, txFailed, acceptedValid, crossEvals, crossUnpaired, coveredByGenuineBadge int64
 		distinct := map[string]bool{}
 		for st := 0; st < 4; st++ {
 			stateName := f.prepareState(st)
@@ -429,26 +429,43 @@ func init() {
 				}
 				r()
 			}
+			// placements: alone, and right after / right before EVERY valid relay of the same sender (plain, second
+			// developer key, badge) - state built up by an earlier relay of the same tx (caches, per-tx maps) must not
+			// vouch for a later one
+			places := []string{"alone"}
+			for vi := range valid {
+				places = append(places, fmt.Sprintf("after-valid:%d", vi), fmt.Sprintf("before-valid:%d", vi))
+			}
 			for _, b := range bad {
-				for _, place := range []string{"alone", "after-valid", "before-valid"} {
+				for _, place := range places {
 					var relays []*pairingtypes.RelaySession
 					var without []*pairingtypes.RelaySession
 					creator := b.creator
-					switch place {
-					case "alone":
+					if place != "alone" {
+						var vi int
+						kind := place[:strings.IndexByte(place, ':')]
+						fmt.Sscanf(place[strings.IndexByte(place, ':')+1:], "%d", &vi)
+						if creator != valid[vi].creator {
+							continue
+						}
+						without = []*pairingtypes.RelaySession{valid[vi].rs}
+						if kind == "after-valid" {
+							relays = []*pairingtypes.RelaySession{valid[vi].rs, b.rs}
+						} else {
+							relays = []*pairingtypes.RelaySession{b.rs, valid[vi].rs}
+						}
+						place = kind + ":" + valid[vi].name
+						// next to the valid badge relay of the same tx the sender's badge user IS a valid badge holder for
+						// that epoch (the chain keeps the first badge per (user, epoch) of a tx): a later relay of the same
+						// user whose own badge copy is damaged but which fits in the genuine allocation is covered by the
+						// property's "signed by ... a valid badge holder" - not a must-reject case
+						// (either order: the first badge of the tx whose signer can be recovered is the one that is kept)
+						if strings.HasSuffix(place, ":valid-badge") && (b.name == "badge:project-sig-flipped" || b.name == "badge:signed-by-stranger" || b.name == "badge:other-lava-chain" || b.name == "badge:other-epoch") {
+							coveredByGenuineBadge++
+							continue
+						}
+					} else {
 						relays = []*pairingtypes.RelaySession{b.rs}
-					case "after-valid":
-						if creator != valid[0].creator {
-							continue
-						}
-						relays = []*pairingtypes.RelaySession{valid[0].rs, b.rs}
-						without = []*pairingtypes.RelaySession{valid[0].rs}
-					case "before-valid":
-						if creator != valid[0].creator {
-							continue
-						}
-						relays = []*pairingtypes.RelaySession{b.rs, valid[0].rs}
-						without = []*pairingtypes.RelaySession{valid[0].rs}
 					}
 					evals++
 					distinct[stateName+"|"+b.name+"|"+place] = true
@@ -494,13 +511,14 @@ func init() {
 		}
 		run.Set("evaluations", evals)
 		run.Set("distinct_nontrivial", int64(len(distinct)))
-		run.Set("rule", "4 reachable chain states (fresh epoch; after accepted payments; after a developer key was removed and chain memory turned over; after the serving provider froze) x every corruption (each signed field edited after signing; properly signed relays violating one stated condition: provider/creator mismatch, lava chain id, future/negative/out-of-memory epoch, unknown/disabled spec, stranger key, removed key, unpaired provider; 7 badge corruptions) x placement alone / after / before a valid relay in the same tx; plus, per state, every provider x every ordered pair of (consumer in {cons, other}, epoch in memory) contexts where the provider is paired in the first and not in the second, both orders in one tx; a 4th state has the serving provider frozen; each on a fork, compared with the fork of the tx without the corrupted relay")
+		run.Set("rule", "4 reachable chain states (fresh epoch; after accepted payments; after a developer key was removed and chain memory turned over; after the serving provider froze) x every corruption (each signed field edited after signing; properly signed relays violating one stated condition: provider/creator mismatch, lava chain id, future/negative/out-of-memory epoch, unknown/disabled spec, stranger key, removed key, unpaired provider; 7 badge corruptions) x placement alone / right after / right before every valid relay (plain, second developer key, badge) in the same tx; plus, per state, every provider x every ordered pair of (consumer in {cons, other}, epoch in memory) contexts where the provider is paired in the first and not in the second, both orders in one tx; a 4th state has the serving provider frozen; each on a fork, compared with the fork of the tx without the corrupted relay")
 		run.Set("exhaustive", true)
 		run.Set("cross_context_pairs_evaluated", crossEvals)
 		run.Set("cross_context_unpaired_contexts", crossUnpaired)
 		if crossEvals == 0 {
 			run.Set("harness_no_cross_context_pair", "no provider was paired in one in-memory context and unpaired in another")
 		}
+		run.Set("damaged_badge_copies_after_the_genuine_badge_of_the_same_tx_not_judged", coveredByGenuineBadge)
 		run.Set("corrupted_relays_without_effect", rejectedOK)
 		run.Set("payment_tx_failed", txFailed)
 		run.Set("valid_relays_accepted_alone", acceptedValid)
